@@ -114,6 +114,20 @@ pub fn gen_ops(rng: &mut Rng, len: usize, n_syn: usize) -> Vec<Op> {
         let nd = |rng: &mut Rng| -> u32 { if nodes == 0 { 0 } else if rng.chance(3) { nodes + rng.below(2) as u32 } else { rng.below(nodes as usize) as u32 } };
         let src = |rng: &mut Rng| -> u32 { if hub_mode && nodes > 0 && rng.chance(60) { 0 } else { nd(rng) } };
         let k = rng.below(100);
+        // focused sequence: look an edge up mutably, insert a new edge right before it, look it up again
+        if nodes >= 3 && rng.chance(4) {
+            let a = src(rng);
+            let c = 1 + rng.below(nodes as usize - 1) as u32;
+            let vg2 = ValGen { n_syn, n_graph: nodes, allow_syn_in_set: true };
+            ops.push(Op::AddEdge(a, c));
+            ops.push(Op::EdgeAttrAdd(a, c, "k1".into(), vg2.gen(rng, 1)));
+            ops.push(Op::AddEdge(a, c - 1));
+            ops.push(Op::EdgeAttrAdd(a, c, "k2".into(), vg2.gen(rng, 1)));
+            ops.push(Op::EdgeAttrGet(a, c, "k2".into()));
+            ops.push(Op::EdgeAttrIter(a, c - 1));
+            ops.push(Op::EdgeAttrIter(a, c));
+            continue;
+        }
         let op = if nodes < 3 || k < 10 { nodes += 1; Op::AddNode }
             else if k < 30 { Op::AddEdge(src(rng), nd(rng)) }
             else if k < 36 { Op::GetEdge(src(rng), nd(rng)) }
